@@ -53,7 +53,8 @@ QUICK_BOUND = ('full alphabet (incl. the client builders C1 M MD): depth 6 with 
                'builders: depth 7 with at most 2 held groups; each on 18 configurations (tz1,tz2,tz3 x c0 in {0,126,2^32-2} x '
                'sandboxed in {no,yes}); the A event additionally called with options - autofill(fee, gas_limit, storage_limit) / '
                'autofill(fee) / autofill(ttl, gas_reserve, burn_reserve) - on the 6 tz1 configurations, alphabet without the client '
-               'builders, depth 6 (thorough: 8)')
+               'builders, depth 6 (thorough: 8); and the E event (a held unsigned group extended by one more transaction, in any stage, '
+               'then filled again) with one held group, depth 6 (thorough: 7), on the same 6 configurations')
 THOROUGH_BOUND = ('full alphabet: depth 8 with at most 2 held groups and depth 6 with at most 3 held groups; alphabet without the '
                   'client builders: depth 9 with at most 2 held groups and depth 8 with at most 3 held groups; same 18 configurations')
 BOUND = {'quick': QUICK_BOUND, 'thorough': THOROUGH_BOUND}
@@ -160,13 +161,19 @@ class World:
                     if room:
                         evs.append(['M', gi, gj])
                     evs.append(['MD', gi, gj])
+        ext = self.cfg.get('alphabet') == 'ext'
         for gid, sl in self.held.items():
             evs += [['F', gid], ['A', gid]]
-            if sl.g.branch:
+            # a group extended after its counters were computed has a content without counter: signing / injecting it as it
+            # is would be the caller's mistake, not a behaviour of the library, so E must be followed by F, A or X
+            unfilled = ext and any(int(x['counter']) == 0 for x in sl.g.contents) and self.counters(sl.g) is not None
+            if sl.g.branch and not unfilled:
                 evs.append(['S', gid])
-            if sl.g.signature:
+            if sl.g.signature and not unfilled:
                 evs += [['I', gid], ['R', gid]]
             evs += [['X', gid], ['XR', gid], ['D', gid]]
+            if ext and sl.n < MAXN and not sl.g.signature:
+                evs.append(['E', gid])
         evs.append(['K'])
         return evs
 
@@ -181,6 +188,17 @@ class World:
             base = self.c() if cache is None else cache
             pred = [base + 1 + i for i in range(sl.n)]
             self.model_cache[sl.ctx] = base + sl.n
+            if call == 'autofill':
+                pred = [x + p for x in pred]
+            return pred, basis
+        if len(sl.predicted) < sl.n:
+            # extended after its counters were computed (E): the old contents keep theirs, the new ones get the next cached ones
+            missing = sl.n - len(sl.predicted)
+            cache = self.model_cache[sl.ctx]
+            basis = 'node counter' if cache is None else 'cached counter'
+            base = self.c() if cache is None else cache
+            pred = sl.predicted + [base + 1 + i for i in range(missing)]
+            self.model_cache[sl.ctx] = base + missing
             if call == 'autofill':
                 pred = [x + p for x in pred]
             return pred, basis
@@ -252,6 +270,10 @@ class World:
             del self.held[gid]
             self._forget_contexts()
             return None
+        if kind == 'E':
+            sl.g = sl.g.transaction(destination=DEST, amount=1)
+            sl.n += 1
+            return None
         if kind == 'F':
             self._assign(sl, 'fill', sl.g.fill())
             return None
@@ -313,7 +335,10 @@ def judge(j):
         return f'{via} [{how}]: counters are the next ones' + ('' if ev in ('I', 'X') else ' (node refuses for its own reasons)'), None, False
     cs = j['counters']
     if cs != list(range(cs[0], cs[0] + len(cs))):
-        return f'{via}: non-consecutive', f'{via}: counters inside one group are not consecutive', False
+        d = f'{via}: counters inside one group are not consecutive'
+        if cs == j['predicted']:   # the documented caching explains it (a group extended after a refused injection reset the cache)
+            d += ' [what the counter-cache model predicts]'
+        return f'{via}: non-consecutive', d, False
     direction = 'too high' if cs[0] > j['expected'][0] else 'too low'
     if j['stale']:
         return f'{via} [{how}]: {direction}, stale group: no verdict', None, True
@@ -324,7 +349,7 @@ def judge(j):
 
 
 def render(history):
-    names = {'B': 'build', 'F': 'fill', 'A': 'autofill', 'S': 'sign', 'I': 'inject', 'R': 'inject(node refuses)',
+    names = {'E': 'extend by one transaction', 'B': 'build', 'F': 'fill', 'A': 'autofill', 'S': 'sign', 'I': 'inject', 'R': 'inject(node refuses)',
              'X': 'send', 'XR': 'send(node refuses)', 'K': 'bake', 'D': 'drop'}
     out, gid = [], 0
     for ev in history:
@@ -380,7 +405,7 @@ CONFIGS = [{'curve': cv, 'c0': c0, 'sandboxed': sb} for cv in CURVES for c0 in (
 
 LANES = 16
 # measured transitions per shard (thousands), used only to spread the shards evenly over the runner's static lanes
-WEIGHT = {('client', 2, 6): 15, ('base', 2, 7): 7, ('base', 2, 6): 3, ('base', 2, 8): 18, ('client', 3, 6): 44, ('client', 2, 8): 148, ('base', 3, 8): 42, ('base', 2, 9): 47}
+WEIGHT = {('ext', 1, 6): 2, ('ext', 1, 7): 4, ('client', 2, 6): 15, ('base', 2, 7): 7, ('base', 2, 6): 3, ('base', 2, 8): 18, ('client', 3, 6): 44, ('client', 2, 8): 148, ('base', 3, 8): 42, ('base', 2, 9): 47}
 
 
 def balanced(specs):
@@ -424,6 +449,8 @@ def shards(tier, seed):
         return [dict(cfg, alphabet=alphabet, maxg=maxg, depth=depth, opts=opts) for cfg in (configs or CONFIGS)]
     tz1 = [c for c in CONFIGS if c['curve'] == CONFIGS[0]['curve']]
     optfams = [x for o in ('limits', 'fee', 'ttl') for x in fam('base', 2, 6 if tier == 'quick' else 8, o, tz1)]
+    # E g: a held, unsigned group is extended by one more transaction (g = g.transaction(..)) in any stage; one held group
+    optfams += fam('ext', 1, 6 if tier == 'quick' else 7, 'plain', tz1)
     if tier == 'quick':
         return balanced(fam('client', 2, 6) + fam('base', 2, 7) + optfams)
     return balanced(fam('client', 3, 6) + fam('client', 2, 8) + fam('base', 3, 8) + fam('base', 2, 9) + optfams)
